@@ -11,12 +11,14 @@
 #include "cstl/slist.h"
 
 #include <string.h>
+#include <stdlib.h>
 
 enum {
     D_PUSH_FRONT = 1, D_PUSH_BACK, D_POP_FRONT, D_POP_BACK, D_INSERT, D_ERASE,
     D_REVERSE, D_SORT, D_CONCAT, D_SWAP, D_FIND, D_FOREACH, D_CLEAR,
     S_PUSH_FRONT = 20, S_PUSH_BACK, S_POP_FRONT, S_INSERT_AFTER, S_ERASE_AFTER,
     S_REVERSE, S_SORT, S_CONCAT, S_SWAP, S_FOREACH, S_CLEAR,
+    D_HUGE_SORT = 40, S_HUGE_SORT,
 };
 
 static const char *l_opname(int k)
@@ -33,12 +35,13 @@ static const char *l_opname(int k)
     case S_ERASE_AFTER: return "s_erase_after"; case S_REVERSE: return "s_reverse";
     case S_SORT: return "s_sort"; case S_CONCAT: return "s_concat"; case S_SWAP: return "s_swap";
     case S_FOREACH: return "s_foreach"; case S_CLEAR: return "s_clear";
+    case D_HUGE_SORT: return "d_huge_sort"; case S_HUGE_SORT: return "s_huge_sort";
     }
     return "?";
 }
 
 /* cfg indices */
-enum { CF_ND, CF_NS, CF_KEYS, CF_JUNK, CF_MAXLEN, CF_CLEARFREES, CF_LONG };
+enum { CF_ND, CF_NS, CF_KEYS, CF_JUNK, CF_MAXLEN, CF_CLEARFREES, CF_LONG, CF_HET };
 
 #define MAXL 3
 #define MAXLEN 1200
@@ -50,11 +53,17 @@ struct lelem {
     uint64_t pad;
     struct cstl_slist_node sn;
     uint64_t tail;
+    /* second set of link members at other offsets: a list may be declared over either member, and
+     * swap exchanges whole list objects, offsets included */
+    struct cstl_dlist_node dn2;
+    uint64_t pad2;
+    struct cstl_slist_node sn2;
 };
 #define MAGIC 0x11e1e111e1e111e1ull
 
 struct mlist {                  /* model */
     int n;
+    int kind;                   /* which link member this list object is currently declared over (moves with swap) */
     struct lelem *e[MAXLEN];
     int since_clear;            /* ops on this list since the last clear (-1: never) */
 };
@@ -65,6 +74,11 @@ static struct mlist md[MAXL], ms[MAXL];
 static int nd, ns, maxlen, keys, clear_frees;
 static int next_id;
 static unsigned maxreach;
+
+static size_t doff(int kind) { return kind ? offsetof(struct lelem, dn2) : offsetof(struct lelem, dn); }
+static size_t soff(int kind) { return kind ? offsetof(struct lelem, sn2) : offsetof(struct lelem, sn); }
+static struct cstl_dlist_node *dnode(struct lelem *e, int kind) { return (struct cstl_dlist_node *)((char *)e + doff(kind)); }
+static struct cstl_slist_node *snode(struct lelem *e, int kind) { return (struct cstl_slist_node *)((char *)e + soff(kind)); }
 
 static const char *ctx_of(const struct mlist *m)
 {
@@ -102,10 +116,35 @@ static void drop_elem(struct lelem *e)
     simheap_free(e);            /* poisons: any later touch by the library is visible */
 }
 
+static int cmp_plain(const void *a, const void *b, void *p)
+{
+    const struct lelem *x = a, *y = b;
+    (void)p;
+    return (x->key > y->key) - (x->key < y->key);
+}
+
+/* re-entrancy: the comparison function looks its argument up in an independent list */
+static struct cstl_dlist auxlist;
+static struct lelem auxel[8];
+static int reentrant;
+
+static void reenter(const struct lelem *x)
+{
+    struct lelem pr; const struct lelem *f;
+    int saved = g_inlib;
+    pr.key = x->key % 8;
+    g_inlib = 1;
+    f = cstl_dlist_find(&auxlist, &pr, cmp_plain, NULL, (x->key & 1) ? CSTL_DLIST_FOREACH_DIR_REV : CSTL_DLIST_FOREACH_DIR_FWD);
+    g_inlib = saved;
+    if (f == NULL || f->key != x->key % 8)
+        sim_violation("C12/reentrant_find/compare/aux-list", "a find on an independent list, made from inside a comparison callback, returned the wrong element");
+}
+
 static int cmp_key(const void *a, const void *b, void *p)
 {
     const struct lelem *x = a, *y = b;
     (void)p;
+    if (reentrant) { CB_ENTER(); reenter(x); CB_LEAVE(); }
     return (x->key > y->key) - (x->key < y->key);
 }
 
@@ -211,7 +250,7 @@ static void audit_d(int li)
     n = l->h.n;
     for (i = 0; i < m->n; i++) {
         if (n == &l->h) VIOL(m, 1, "fwd_links", "list %d: forward walk ends after %d of %d", li, i, m->n);
-        if (n != &m->e[i]->dn)
+        if (n != dnode(m->e[i], m->kind))
             VIOL(m, 1, "fwd_links", "list %d: forward position %d holds the wrong element", li, i);
         if (n->p != prev)
             VIOL(m, 1, "back_links", "list %d: back link of position %d does not point at its predecessor", li, i);
@@ -263,7 +302,7 @@ static void audit_s(int li)
     n = l->h.n;
     for (i = 0; i < m->n; i++) {
         if (n == NULL) VIOL(m, 0, "links", "list %d: walk ends after %d of %d", li, i, m->n);
-        if (n != &m->e[i]->sn) VIOL(m, 0, "links", "list %d: position %d holds the wrong element", li, i);
+        if (n != snode(m->e[i], m->kind)) VIOL(m, 0, "links", "list %d: position %d holds the wrong element", li, i);
         n = n->n;
     }
     if (n != NULL) VIOL(m, 0, "links", "list %d: walk continues past %d elements", li, m->n);
@@ -326,23 +365,23 @@ static void check_sorted_perm(struct mlist *m, int is_d, struct lelem **got, int
 }
 
 /* walk a list into out[] defensively (bounded) */
-static int walk_d(struct cstl_dlist *l, struct lelem **out, int max)
+static int walk_d(struct cstl_dlist *l, struct lelem **out, int max, int kind)
 {
     struct cstl_dlist_node *n = l->h.n;
     int i = 0;
     while (n != &l->h && i < max) {
-        out[i++] = (struct lelem *)((char *)n - offsetof(struct lelem, dn));
+        out[i++] = (struct lelem *)((char *)n - doff(kind));
         n = n->n;
     }
     return (n == &l->h) ? i : -1;
 }
 
-static int walk_s(struct cstl_slist *l, struct lelem **out, int max)
+static int walk_s(struct cstl_slist *l, struct lelem **out, int max, int kind)
 {
     struct cstl_slist_node *n = l->h.n;
     int i = 0;
     while (n != NULL && i < max) {
-        out[i++] = (struct lelem *)((char *)n - offsetof(struct lelem, sn));
+        out[i++] = (struct lelem *)((char *)n - soff(kind));
         n = n->n;
     }
     return (n == NULL) ? i : -1;
@@ -351,6 +390,68 @@ static int walk_s(struct cstl_slist *l, struct lelem **out, int max)
 static void tick(struct mlist *m)
 {
     if (m->since_clear >= 0 && m->since_clear < 100) m->since_clear++;
+}
+
+/* --------------------------------------------------- very large lists (sort) */
+
+static int huge_cleared;
+static void huge_clear_cb(void *obj, void *priv) { (void)obj; (void)priv; huge_cleared++; }
+
+/* one list of n elements (n up to a little over 2^20): build, sort, reverse, verify by one walk.
+ * Size-dependent code paths (a fixed number of merge bins, a counter that wraps) only show here. */
+static void huge_sort(int is_d, uint64_t nsel, uint64_t seed)
+{
+    static const size_t bases[] = { 1u << 12, 1u << 16, 1u << 18, 1u << 20, 1u << 20, (1u << 20) + 3 };
+    size_t n = bases[nsel % 6] + (size_t)((nsel >> 8) % 5) - 2 + ((nsel >> 16 & 1) ? (size_t)((nsel >> 20) % 5000) : 0);
+    struct lelem *pool = malloc(n * sizeof *pool);
+    struct mlist dummy; size_t i, cnt; int prev;
+    uint64_t x = seed;
+    if (!pool) sim_harness_bug("lists: no memory for a huge list");
+    dummy.n = 6; dummy.since_clear = -1; dummy.kind = 0;
+    g_cur_ctx = "huge-list";
+    if (is_d) cstl_dlist_init(&dl[0], doff(0)); else cstl_slist_init(&sl[0], soff(0));
+    for (i = 0; i < n; i++) {
+        pool[i].magic = MAGIC; pool[i].tail = ~MAGIC; pool[i].id = 0;
+        pool[i].key = (nsel >> 32 & 3) == 0 ? (int)i : (nsel >> 32 & 3) == 1 ? (int)(n - i) : (int)(splitmix64(&x) % 100000);
+        g_inlib = 1;
+        if (is_d) cstl_dlist_push_back(&dl[0], &pool[i]); else cstl_slist_push_back(&sl[0], &pool[i]);
+        g_inlib = 0;
+    }
+    if (is_d) TRY(cstl_dlist_sort(&dl[0], cmp_plain, NULL)); else TRY(cstl_slist_sort(&sl[0], cmp_plain, NULL));
+    if (g_aborted) VIOL(&dummy, is_d, g_aborted == 2 ? "assert" : "abort", "sort of %zu elements aborted", n);
+    if ((is_d ? cstl_dlist_size(&dl[0]) : cstl_slist_size(&sl[0])) != n)
+        VIOL(&dummy, is_d, "size", "after sorting %zu elements the list reports size %zu", n, is_d ? cstl_dlist_size(&dl[0]) : cstl_slist_size(&sl[0]));
+    cnt = 0; prev = -1;
+    if (is_d) {
+        struct cstl_dlist_node *nd2 = dl[0].h.n, *pv = &dl[0].h;
+        while (nd2 != &dl[0].h && cnt <= n) {
+            struct lelem *e = (struct lelem *)((char *)nd2 - doff(0));
+            if (e < pool || e >= pool + n || e->id != 0) VIOL(&dummy, 1, "sort_perm", "sorted list of %zu holds a foreign or repeated element at %zu", n, cnt);
+            e->id = 1;
+            if (nd2->p != pv) VIOL(&dummy, 1, "back_links", "sorted list of %zu: back link broken at %zu", n, cnt);
+            if (e->key < prev) VIOL(&dummy, 1, "sort_order", "sorted list of %zu elements is not ordered at position %zu", n, cnt);
+            prev = e->key; pv = nd2; nd2 = nd2->n; cnt++;
+        }
+        if (dl[0].h.p != pv) VIOL(&dummy, 1, "back_links", "sorted list of %zu: sentinel back link is not the last element", n);
+    } else {
+        struct cstl_slist_node *nd2 = sl[0].h.n, *last = NULL;
+        while (nd2 != NULL && cnt <= n) {
+            struct lelem *e = (struct lelem *)((char *)nd2 - soff(0));
+            if (e < pool || e >= pool + n || e->id != 0) VIOL(&dummy, 0, "sort_perm", "sorted list of %zu holds a foreign or repeated element at %zu", n, cnt);
+            e->id = 1;
+            if (e->key < prev) VIOL(&dummy, 0, "sort_order", "sorted list of %zu elements is not ordered at position %zu", n, cnt);
+            prev = e->key; last = nd2; nd2 = nd2->n; cnt++;
+        }
+        if (cstl_slist_back(&sl[0]) != (last ? (void *)((char *)last - soff(0)) : NULL)) VIOL(&dummy, 0, "tail", "after sorting %zu elements back() is not the true last element", n);
+    }
+    if (cnt != n) VIOL(&dummy, is_d, "sort_perm", "sorting %zu elements left %zu reachable", n, cnt);
+    huge_cleared = 0;
+    if (is_d) TRY(cstl_dlist_clear(&dl[0], huge_clear_cb)); else TRY(cstl_slist_clear(&sl[0], huge_clear_cb));
+    if ((size_t)huge_cleared != n) { g_cur_prop = "C15"; VIOL(&dummy, is_d, "clear_count", "clear of %zu elements called back %d times", n, huge_cleared); }
+    free(pool);
+    PROBE(n >= (1u << 20) ? "huge_sort_2^20" : "huge_sort");
+    EVT("huge_sort", is_d, n, 0);
+    if (n > maxreach) maxreach = (unsigned)n;
 }
 
 /* ------------------------------------------------------------------- exec */
@@ -376,9 +477,17 @@ static void l_exec(const plan_t *p)
     maxlen = (int)p->cfg[CF_MAXLEN]; if (maxlen < 1) maxlen = 8; if (maxlen > MAXLEN - 8) maxlen = MAXLEN - 8;
     clear_frees = (int)p->cfg[CF_CLEARFREES];
     next_id = 0; maxreach = 0;
+    reentrant = 0;
+    if (p->cfg[CF_LONG] >> 8 & 1) {
+        cstl_dlist_init(&auxlist, offsetof(struct lelem, dn));
+        for (i = 0; i < 8; i++) { auxel[i].key = i; auxel[i].magic = MAGIC; g_inlib = 1; cstl_dlist_push_back(&auxlist, &auxel[i]); g_inlib = 0; }
+        reentrant = 1;
+        PROBE("comparator_reenters_library");
+    }
     for (i = 0; i < MAXL; i++) {
-        cstl_dlist_init(&dl[i], offsetof(struct lelem, dn));
-        cstl_slist_init(&sl[i], offsetof(struct lelem, sn));
+        md[i].kind = (int)(p->cfg[CF_HET] >> i & 1); ms[i].kind = (int)(p->cfg[CF_HET] >> (4 + i) & 1);
+        cstl_dlist_init(&dl[i], doff(md[i].kind));
+        cstl_slist_init(&sl[i], soff(ms[i].kind));
         md[i].n = 0; ms[i].n = 0; md[i].since_clear = -1; ms[i].since_clear = -1;
     }
 
@@ -397,6 +506,12 @@ static void l_exec(const plan_t *p)
         g_cur_prop = prop_of(m, is_d);
         e = NULL; ret = NULL;
 
+        if (o->kind == D_HUGE_SORT || o->kind == S_HUGE_SORT) {
+            g_cur_prop = o->kind == D_HUGE_SORT ? "C12" : "C13";
+            huge_sort(o->kind == D_HUGE_SORT, o->a[1], o->a[2]);
+            cstl_dlist_init(&dl[0], doff(md[0].kind)); cstl_slist_init(&sl[0], soff(ms[0].kind));
+            continue;
+        }
         switch (o->kind) {
         case D_PUSH_FRONT:
             if (m->n >= maxlen) goto d_pop_front;
@@ -468,7 +583,7 @@ static void l_exec(const plan_t *p)
             void *priv = mod ? (void *)(intptr_t)(mod + 1) : NULL;
             int n;
             TRY(cstl_dlist_sort(D, cmp, priv)); check_noabort(m, 1);
-            n = walk_d(D, tmp, m->n + 4);
+            n = walk_d(D, tmp, m->n + 4, m->kind);
             if (n < 0) VIOL(m, 1, "sort_perm", "list does not terminate after sort");
             check_sorted_perm(m, 1, tmp, n, cmp, priv);
             PROBE("d_sort"); EVT("d_sort", li, m->n, mod);
@@ -480,6 +595,7 @@ static void l_exec(const plan_t *p)
             si = (int)(o->a[2] % (uint64_t)nd);
             if (si == li) si = (li + 1) % nd;
             sm = &md[si];
+            if (sm->kind != m->kind) { EVT("skip", 0, 0, 0); break; }     /* lists over different link members: outside concat's domain */
             if (sm->since_clear >= 0 && sm->since_clear <= 3) { g_cur_prop = "C15"; g_cur_ctx = "after-clear"; }
             TRY(cstl_dlist_concat(D, &dl[si])); check_noabort(m, 1);
             if (sm->n == 0) PROBE("d_concat_empty_src"); if (m->n == 0) PROBE("d_concat_empty_dst");
@@ -498,11 +614,12 @@ static void l_exec(const plan_t *p)
             TRY(cstl_dlist_swap(D, &dl[si])); check_noabort(m, 1);
             if (m->n == 0 || md[si].n == 0) PROBE("d_swap_with_empty");
             memcpy(tmp, m->e, sizeof(m->e[0]) * (size_t)m->n);
-            t.n = m->n; t.since_clear = m->since_clear;
+            t.n = m->n; t.since_clear = m->since_clear; t.kind = m->kind;
             memcpy(m->e, md[si].e, sizeof(m->e[0]) * (size_t)md[si].n);
-            m->n = md[si].n; m->since_clear = md[si].since_clear;
+            m->n = md[si].n; m->since_clear = md[si].since_clear; m->kind = md[si].kind;
             memcpy(md[si].e, tmp, sizeof(m->e[0]) * (size_t)t.n);
-            md[si].n = t.n; md[si].since_clear = t.since_clear;
+            md[si].n = t.n; md[si].since_clear = t.since_clear; md[si].kind = t.kind;
+            if (m->kind != md[si].kind) PROBE("d_swap_different_offsets");
             tick(&md[si]);
             EVT("d_swap", li, si, 0);
             audit_d(si);
@@ -633,7 +750,7 @@ static void l_exec(const plan_t *p)
             void *priv = mod ? (void *)(intptr_t)(mod + 1) : NULL;
             int n;
             TRY(cstl_slist_sort(S, cmp, priv)); check_noabort(m, 0);
-            n = walk_s(S, tmp, m->n + 4);
+            n = walk_s(S, tmp, m->n + 4, m->kind);
             if (n < 0) VIOL(m, 0, "sort_perm", "list does not terminate after sort");
             check_sorted_perm(m, 0, tmp, n, cmp, priv);
             PROBE("s_sort"); EVT("s_sort", li, m->n, mod);
@@ -645,6 +762,7 @@ static void l_exec(const plan_t *p)
             si = (int)(o->a[2] % (uint64_t)ns);
             if (si == li) si = (li + 1) % ns;
             sm = &ms[si];
+            if (sm->kind != m->kind) { EVT("skip", 0, 0, 0); break; }
             if (sm->since_clear >= 0 && sm->since_clear <= 3) { g_cur_prop = "C15"; g_cur_ctx = "after-clear"; }
             TRY(cstl_slist_concat(S, &sl[si])); check_noabort(m, 0);
             if (sm->n == 0) PROBE("s_concat_empty_src"); if (m->n == 0) PROBE("s_concat_empty_dst");
@@ -663,11 +781,12 @@ static void l_exec(const plan_t *p)
             TRY(cstl_slist_swap(S, &sl[si])); check_noabort(m, 0);
             if (m->n == 0 || ms[si].n == 0) PROBE("s_swap_with_empty");
             memcpy(tmp, m->e, sizeof(m->e[0]) * (size_t)m->n);
-            t.n = m->n; t.since_clear = m->since_clear;
+            t.n = m->n; t.since_clear = m->since_clear; t.kind = m->kind;
             memcpy(m->e, ms[si].e, sizeof(m->e[0]) * (size_t)ms[si].n);
-            m->n = ms[si].n; m->since_clear = ms[si].since_clear;
+            m->n = ms[si].n; m->since_clear = ms[si].since_clear; m->kind = ms[si].kind;
             memcpy(ms[si].e, tmp, sizeof(m->e[0]) * (size_t)t.n);
-            ms[si].n = t.n; ms[si].since_clear = t.since_clear;
+            ms[si].n = t.n; ms[si].since_clear = t.since_clear; ms[si].kind = t.kind;
+            if (m->kind != ms[si].kind) PROBE("s_swap_different_offsets");
             tick(&ms[si]);
             EVT("s_swap", li, si, 0);
             audit_s(si);
@@ -736,6 +855,14 @@ static void l_gen(prng_t *r, int mode, plan_t *p)
     int d_only = mode == 12, s_only = mode == 13;
     unsigned w_clear;
 
+    if (mode == 112 || mode == 113) {
+        /* very large lists: one huge build-sort-verify-clear per run */
+        op_t *o = plan_add(p, mode == 112 ? D_HUGE_SORT : S_HUGE_SORT);
+        p->cfg[CF_ND] = 1; p->cfg[CF_NS] = 1; p->cfg[CF_KEYS] = 1; p->cfg[CF_JUNK] = 1 + prng_below(r, 254); p->cfg[CF_MAXLEN] = 8;
+        o->a[1] = prng_next(r); o->a[2] = prng_next(r);
+        return;
+    }
+
     longrun = prng_chance(r, 1, 10);
     small = !longrun && prng_chance(r, 1, 5);
     p->cfg[CF_ND] = 1 + prng_below(r, 3);
@@ -744,7 +871,8 @@ static void l_gen(prng_t *r, int mode, plan_t *p)
     p->cfg[CF_JUNK] = 1 + prng_below(r, 254);
     p->cfg[CF_MAXLEN] = longrun ? 300 + prng_below(r, 700) : small ? 2 + prng_below(r, 5) : 4 + prng_below(r, 40);
     p->cfg[CF_CLEARFREES] = (mode == 15) ? 1 : prng_chance(r, 1, 2);
-    p->cfg[CF_LONG] = (uint64_t)longrun;
+    p->cfg[CF_LONG] = (uint64_t)longrun | (prng_chance(r, 1, 6) ? 256 : 0);
+    p->cfg[CF_HET] = prng_chance(r, 1, 3) ? prng_below(r, 128) : 0;
     nops = longrun ? 400 + (int)prng_below(r, 1600) : small ? 2 + (int)prng_below(r, 9) : 10 + (int)prng_below(r, 70);
     w_clear = (mode == 15) ? 12 : 2;
 
